@@ -11,7 +11,7 @@ from typing import List, Optional, Set
 
 from ..core import astq
 from ..core.cfg import CFG
-from ..core.program import AnalysisError, FunctionInfo, Program, attr_chain, norm, short, walk_function
+from ..core.program import AnalysisError, FunctionInfo, Program, attr_chain, enclosing_stmt, norm, short, walk_function
 from ..report import Result
 from ..runner import Variant
 
@@ -547,7 +547,47 @@ def check_batch(prog: Program, res: Result) -> None:
     res.floor(R, 7)
 
 
+def check_group_key(prog: Program, res: Result) -> None:
+    """Top-down results arrive one crop at a time and are regrouped into frames by a dictionary.  A frame is identified by
+    (video, frame index): the key of that dictionary contains BOTH (keyed by the frame index alone, frames of two videos
+    with the same number are merged into one and a frame that was read is missing from the output)."""
+    R = "C13-group"
+    fi = prog.cls("sleap_nn.inference.predictors:TopDownPredictor").methods.get("_make_labeled_frames_from_generator")
+    if fi is None:
+        raise AnalysisError("TopDownPredictor._make_labeled_frames_from_generator vanished")
+    res.touch(fi)
+    fn = fi.node
+    # loop variables bound to the batch's video_idx / frame_idx columns
+    cols = {}
+    for lp in walk_function(fn):
+        if isinstance(lp, ast.For):
+            le = astq.loop_elems(lp, fn)
+            if le is None:
+                continue
+            for seq, nm in [(le.seq, le.elem)] + list(le.extra):
+                if nm and isinstance(seq, ast.Subscript) and isinstance(astq.const_value(seq.slice), str):
+                    cols[astq.const_value(seq.slice)] = nm
+    res.ob(R, "video_idx" in cols and "frame_idx" in cols, fi.qualname, "per-crop video and frame index are read from the batch",
+           f"the loop over the batch does not bind the video_idx / frame_idx columns (bound: {sorted(cols)})", fi.where)
+    if not ("video_idx" in cols and "frame_idx" in cols):
+        return
+    adds = [c for c in walk_function(fn) if isinstance(c, ast.Call) and isinstance(c.func, ast.Attribute) and c.func.attr == "append"
+            and (isinstance(c.func.value, ast.Subscript) or (isinstance(c.func.value, ast.Call) and isinstance(c.func.value.func, ast.Attribute) and c.func.value.func.attr == "setdefault"))]
+    adds = [c for c in adds if any(isinstance(x, ast.Call) and "PredictedInstance" in norm(x.func) for x in ast.walk(c))
+            or astq.names_in(c) & {cols["video_idx"], cols["frame_idx"]}]
+    res.ob(R, len(adds) >= 1, fi.qualname, "instances are grouped into a per-frame dictionary", "no per-frame grouping dictionary found", fi.where)
+    for c in adds:
+        key = c.func.value.slice if isinstance(c.func.value, ast.Subscript) else (c.func.value.args[0] if c.func.value.args else None)
+        ke = astq.expand_at(fn, key, enclosing_stmt(c), keep=list(cols.values())) if key is not None else None
+        nm = astq.names_in(ke) if ke is not None else set()
+        res.ob(R, {cols["video_idx"], cols["frame_idx"]} <= nm, fi.qualname, "frames are keyed by (video index, frame index)",
+               f"predicted instances are grouped under the key `{short(key, 40) if key is not None else '?'}`, which does not contain both the video and the frame index: "
+               "frames of different videos that share a frame number are merged and one of them is missing from the result", f"{fi.module.relpath}:{c.lineno}")
+    res.floor(R, 3)
+
+
 def check(prog: Program, res: Result) -> None:
+    check_group_key(prog, res)
     for r in READERS:
         check_reader(prog, res, r)
     check_ownership(prog, res)
